@@ -150,12 +150,30 @@ class Served:
             log.append(('decb', a, b))
             return ['decb', a, {'b': b}]
 
+        class Tally(pjrpc.server.ViewMixin):
+            """a class based view registered WITHOUT a context that keeps per-request state on self"""
+            def __init__(self):
+                super().__init__()
+                self.seen = []
+
+            def bump(self, a='da', b='db'):
+                self.seen.append(a)
+                log.append(('bump', a, b))
+                return [len(self.seen), a, {'b': b}]
+        self.view = Tally
+
+        def bump(a='da', b='db'):
+            return Tally().bump(a, b)       # the oracle: a fresh view object serves every request
+
         self.funcs = dict(echo=echo, terr=terr, ferr=ferr, herr=herr, uerr=uerr, lerr=lerr, boom=boom, _echo=echo, __x=echo,
-                          deca=deca, decb=decb)
+                          deca=deca, decb=decb, bump=bump)
 
     def register(self, disp, is_async):
         import functools
+        disp.registry.view(self.view)
         for name, f in self.funcs.items():
+            if name == 'bump':
+                continue          # served by the view
             if is_async:
                 def mk(f, swapped=False):
                     async def co(a='da', b='db'):
@@ -199,7 +217,7 @@ class Served:
             else:
                 disp.add(f, name=name)
         # both decorated methods have been served once before the observed call (whatever the library keeps per method is warm)
-        for name in ('deca', 'decb'):
+        for name in ('deca', 'decb', 'bump'):
             text = '{"jsonrpc":"2.0","method":"%s","params":["warm"],"id":0}' % name
             if is_async:
                 loop = VLoop()
@@ -248,6 +266,10 @@ def build_e2e(pair, served, idgen, strict, hier=False):
     ckind, skind = pair
     integ = Integration(skind, '/api')
     served.register(integ.dispatcher, skind == 'aiohttp')
+    if skind in ('flask', 'aiohttp'):
+        # the application also has other JSON-RPC endpoints (added after the main one) that serve nothing
+        integ.rpc.add_endpoint('/v2')
+        integ.rpc.add_endpoint('/zz-last')
     sent = []
 
     def handler(req):
@@ -443,7 +465,7 @@ def same_outcome(got, want):
 
 
 # ---- batches -----------------------------------------------------------------------------------------------
-BATCH_NOTATIONS = ['add', 'dunder', 'proxy', 'getitem', 'notify+getitem', 'send']
+BATCH_NOTATIONS = ['add', 'dunder', 'proxy', 'getitem', 'notify+getitem', 'send', 'send-lax']
 
 
 def batch_thunk(client, notation, elems):
@@ -477,7 +499,9 @@ def batch_thunk(client, notation, elems):
                 b.notify(m, *a, **kw)
         return lambda: b[[(m,) + tuple(a) for m, a, kw, c in elems if c]]
     gen = client.id_gen_impl()
-    req = BatchRequest(*[Request(m, list(a) or dict(kw), id=(next(gen) if c else None)) for m, a, kw, c in elems])
+    # 'send-lax': the hand-built container does not check its ids itself (strict=False)
+    req = BatchRequest(*[Request(m, list(a) or dict(kw), id=(next(gen) if c else None)) for m, a, kw, c in elems],
+                       **({'strict': False} if notation == 'send-lax' else {}))
 
     def send():
         r = b.send(req)
@@ -500,6 +524,8 @@ def run_batch(case, rec):
     for notation in BATCH_NOTATIONS:
         if notation == 'getitem' and (any(kw for _, _, kw, _ in elems) or not all(c for _, _, _, c in elems)):
             continue      # this notation has positional arguments and calls only
+        if notation == 'send-lax' and case['idgen'] in ('randint12', 'random1ab'):
+            continue      # with a colliding generator it is the caller who puts duplicate ids into an unchecked container
         if notation == 'notify+getitem':
             kinds_ = [c for _, _, _, c in elems]
             # applicable when all notifications precede the calls, there is at least one of each, calls are positional
@@ -602,7 +628,7 @@ def gen_cases(ctx):
     for pair in pairs:
         for idgen in IDGENS:
             for strict in (True, False):
-                for method in ('echo', 'terr', 'ferr', 'herr', 'uerr', 'lerr', 'boom', '_echo', '__x', 'deca', 'decb'):
+                for method in ('echo', 'terr', 'ferr', 'herr', 'uerr', 'lerr', 'boom', '_echo', '__x', 'deca', 'decb', 'bump'):
                     for shape in ARGSHAPES:
                         for vi in (range(len(VALS)) if shape != 'none' else [0]):
                             if idgen not in ('sequential', 'sequential0', 'randint12') and vi > 1:
@@ -613,7 +639,7 @@ def gen_cases(ctx):
     for pair in e2e_pairs:
         for idgen in ('sequential', 'sequential0'):
             for strict in (True, False):
-                for method in ('echo', 'terr', 'ferr', 'herr', 'uerr', 'lerr', 'boom', '_echo', '__x'):
+                for method in ('echo', 'terr', 'ferr', 'herr', 'uerr', 'lerr', 'boom', '_echo', '__x', 'bump'):
                     for shape in ARGSHAPES:
                         for vi in (range(len(VALS)) if shape != 'none' else [0]):
                             if (idgen != 'sequential' or not strict) and vi > 1:
